@@ -15,7 +15,7 @@ pub const DEF: PropDef = PropDef {
     id: "C13",
     run,
     oracle,
-    rule: "cases = V5/V7 packets (raw-byte records) and conformant V9/IPFIX histories whose templates contain a random subset, in random order, of the ten projected elements (source/destination address in the IPv4 or the IPv6 variant, one template in eight with both, ports, protocol, first/last switched resp. flowStart/EndSysUpTime, source/destination MAC; natural widths, IPFIX ports and sysUpTime also in the reduced sizes RFC 7011 6.2 allows) mixed with 0..4 unrelated fields (a fixed pool of counters, strings, post-MACs, direction / version / end-reason elements, or any element of the library's table in a legal width; IPFIX: also enterprise-specific elements, some numbered like a projected element, which must not be projected); 1..20 records per data set, several data sets and packets per buffer, options templates/data and template sets in between, optionally a truncated packet at the end (an Error element). Oracle: projection computed by the harness from the independent reference decode of the bytes: version; timestamp (sys_up_time for V5/V7/V9, export_time for IPFIX); one flow per data record in order; every member is Some(value derived from the wire bytes) iff the record's template has that element, else None; as_netflow_common must equal it member by member, Error elements must convert to Err, and parse_bytes_as_netflow_common_flowsets on a twin parser must equal the in-order concatenation over the non-error elements. non-trivial = a V9/IPFIX data set with >= 2 records whose template has >= 3 projected elements and >= 1 unrelated one; distinct by digest.",
+    rule: "cases = V5/V7 packets (raw-byte records) and conformant V9/IPFIX histories whose templates contain a random subset, in random order, of the ten projected elements (source/destination address in the IPv4 or the IPv6 variant, one template in eight with both, ports, protocol, first/last switched resp. flowStart/EndSysUpTime, source/destination MAC; natural widths, IPFIX ports and sysUpTime also in the reduced sizes RFC 7011 6.2 allows) mixed with 0..4 unrelated fields (a fixed pool of counters, strings, post-MACs, direction / version / end-reason elements, or any element of the library's table in a legal width; IPFIX: also enterprise-specific elements, some numbered like a projected element, which must not be projected); 1..20 records per data set, several data sets and packets per buffer, options templates/data and template sets in between, optionally a truncated packet at the end (an Error element). Oracle: projection computed by the harness from the independent reference decode of the bytes: version; timestamp (sys_up_time for V5/V7/V9, export_time for IPFIX); one flow per data record in order; every member is Some(value derived from the wire bytes) iff the record's template has that element, else None; as_netflow_common must equal it member by member, Error elements must convert to Err, and parse_bytes_as_netflow_common_flowsets on a twin parser must equal the in-order concatenation over the non-error elements; the view of every earlier element is taken again after the rest of the history and must not have changed. non-trivial = a V9/IPFIX data set with >= 2 records whose template has >= 3 projected elements and >= 1 unrelated one; distinct by digest.",
     assumptions: &["projected elements are generated with their natural widths (ports 2, protocol 1, times 4, addresses 4/16, MAC 6; IPFIX ports also 1 and sysUpTime also 1-3 bytes) and at most once per template"],
 };
 
@@ -186,9 +186,16 @@ pub fn oracle(case: &Case) -> Outcome {
     let mut p = obs::new_parser(&allowed);
     let mut twin = obs::new_parser(&allowed);
     let mut model = Cache::default();
+    // the common view of earlier results is taken once more after the whole history
+    let mut kept: Vec<(usize, NetflowPacket, String)> = vec![];
     for (ci, c) in case.calls.iter().enumerate() {
         let buf = c.buf();
         let res = p.parse_bytes(&buf);
+        if ci + 1 < case.calls.len() && kept.len() < 32 {
+            for el in &res {
+                kept.push((ci, el.clone(), format!("{:?}", el.as_netflow_common().map_err(|_| "error"))));
+            }
+        }
         let flat = twin.parse_bytes_as_netflow_common_flowsets(&buf);
         let mut concat: Vec<NetflowCommonFlowSet> = vec![];
         let mut off = 0usize;
@@ -315,6 +322,12 @@ pub fn oracle(case: &Case) -> Outcome {
                 if a.len() == b.len() { " (content/order differs)" } else { "" }
             ));
         }
+    }
+    for (ci, el, first) in &kept {
+        if &format!("{:?}", el.as_netflow_common().map_err(|_| "error")) != first {
+            return Outcome::violation(format!("call {}: as_netflow_common gives a different view after later calls than right after its own call", ci));
+        }
+        o.label("common-view-repeated-after-later-calls");
     }
     o
 }
